@@ -608,7 +608,7 @@ def epoch_l2_stream(ex):
             o[f] = kw.get(f, -1)
         out.append(o)
 
-    def next_of(k, skip=('free', 'uaf', 'alloc')):
+    def next_of(k, skip=('free', 'uaf', 'alloc', 'ptr')):
         j = nxt[k]
         while j is not None and evs[j].get('e') in skip:
             j = nxt[j]
@@ -642,8 +642,6 @@ def epoch_l2_stream(ex):
                     emit('exflag', t=t, i=(int(e['loc'][1:], 16) - base) if (base is not None and e['loc'].startswith('@')) else -1)
             elif site.startswith('epoch.cpp'):
                 if e['k'] == 'load' and o == 0:
-                    if phase.get(t, 'none') in ('none', 'held'):
-                        emit('ctest', t=t, x=0)
                     emit('eload', t=t, v=_epval(e['a']))
                     phase[t] = 'loaded'
                 elif e['k'] == 'store' and o is not None and o >= 72 and (o - 72) % 64 == 0:
@@ -682,10 +680,7 @@ def epoch_l2_stream(ex):
         elif kind == 'pt':
             name = e.get('name')
             last_pt_obj[t] = e.get('obj', '')
-            if name == 'epoch.create.rebind':
-                emit('ctest', t=t, x=1)
-                phase[t] = 'tested'
-            elif name == 'epoch.walk.hop':
+            if name == 'epoch.walk.hop':
                 if not in_fwd.get(t) and phase.get(t) == 'stored':
                     emit('whead', t=t, n=node_of(e['obj']))
                     phase[t] = 'walking'
@@ -694,9 +689,7 @@ def epoch_l2_stream(ex):
                     emit('exhb', t=t)
         elif kind == 'ptr':
             name = e.get('name')
-            if name == 'epoch.create.rebind':
-                emit('cbind', t=t)
-            elif name == 'epoch.walk.hop':
+            if name == 'epoch.walk.hop':
                 if not in_fwd.get(t) and phase.get(t) == 'walking':
                     ne = next_of(k)
                     if ne and ne.get('e') == 'pt' and ne.get('name') == 'epoch.walk.hop':
@@ -704,17 +697,6 @@ def epoch_l2_stream(ex):
                     else:
                         emit('wderef', t=t, n=0, x=1)
                         phase[t] = 'held'
-            elif name == 'epoch.collect.slot':
-                o = off(last_pt_obj.get(t, ''))
-                if o is None or o < 64 or (o - 64) % 64:
-                    ok = False
-                    continue
-                i = (o - 64) // 64
-                ne = next_of(k)
-                alive = bool(ne and ne.get('e') == 'op' and ne.get('site', '').startswith('epoch.cpp') and ne['k'] == 'load')
-                emit('ftest', t=t, i=i, x=0 if alive else 1)
-                if not alive and ncap is not None and i == ncap - 1:
-                    flist_after(k, t)
             elif name == 'epoch.retire.delete':
                 ne = next_of(k)
                 nn = node_of(ne['obj']) if ne and ne.get('e') == 'pt' and ne.get('name') == 'epoch.retire.delete' else 0
@@ -722,6 +704,24 @@ def epoch_l2_stream(ex):
             elif name == 'id.exit.mid':
                 if t in flag_stored:
                     emit('exhb', t=t)
+        elif kind == 'wp':
+            # operations on the heartbeat of a slot (instrumented std::weak_ptr): the tests and the re-binding of the model
+            o = off(e.get('obj', ''))
+            if o is None or o < 80 or (o - 80) % 64:
+                ok = False
+                continue
+            i = (o - 80) // 64
+            if e['k'] == 'expired' and in_fwd.get(t):
+                emit('ftest', t=t, i=i, x=e['r'])
+                if e['r'] == 1 and ncap is not None and i == ncap - 1:
+                    flist_after(k, t)
+            elif e['k'] == 'expired':
+                emit('ctest', t=t, x=e['r'])
+                phase[t] = 'tested'
+            elif e['k'] == 'assign' and not in_fwd.get(t):
+                emit('cbind', t=t)
+            else:
+                ok = False
         elif kind == 'gret':
             if phase.get(t) == 'stored':
                 phase[t] = 'held'
